@@ -1,7 +1,8 @@
 (* Props/C04.v — the property theorems for C04 (unmodified records and fields are written back byte-for-byte).
    Only statements, `exact <lemma>` and Print Assumptions live here. *)
 From Coq Require Import ZArith List Bool String Lia.
-From BNP Require Import Base.Prims Model.C04 Proofs.C04 Proofs.C04_raw Proofs.C04_bam Gen.C04 Bridge.C04.
+From BNP Require Import Base.Prims Model.C04 Proofs.C04 Proofs.C04_raw Proofs.C04_bam Proofs.C04_lines Proofs.C04_sam
+  Proofs.C04_crlf Proofs.C04_oneline Proofs.C04_repl Proofs.C04_samjoin Gen.C04 Bridge.C04.
 Import ListNotations.
 Open Scope Z_scope.
 
@@ -119,6 +120,91 @@ Theorem C04_bam_end_to_end :
     spec_out_ok FBam recs p (Some out) = true.
 Proof. exact bam_selection_end_to_end. Qed.
 Print Assumptions C04_bam_end_to_end.
+
+(* ================= phase 3: from_raw_buffer for the remaining formats, CRLF, and the replaced-field path ================= *)
+
+(* T1 for SAM (LF): ragged rows — ANY >= 1 records with >= 11 clean columns each (any number of optional tag columns):
+   SAMBuffer._get_buffer_extractor yields a well-formed contiguous extractor with the records' abstraction (11 common
+   fields; the tags are reached as the rest of the line) *)
+Theorem C04_from_raw_sam :
+  forall recs, recs <> [] -> Forall sam_rec_wf recs ->
+    exists x, from_sam (layout FSam recs) = Some x /\ Inv x /\ view x = map (gview FSam) recs /\ x_contig x = true
+              /\ width_ok FSam (view x).
+Proof. exact from_sam_correct. Qed.
+Print Assumptions C04_from_raw_sam.
+
+(* END TO END for SAM: every program without replacement (selections, concatenations, intermediate writes) *)
+Theorem C04_sam_end_to_end :
+  forall v recs p out, recs <> [] -> Forall sam_rec_wf recs -> repl_free p = true ->
+    model_out_v v FSam (layout FSam recs) p = Some out -> spec_out_ok FSam recs p (Some out) = true.
+Proof. exact sam_selection_end_to_end. Qed.
+Print Assumptions C04_sam_end_to_end.
+
+(* T1 for the REPAIRED delimited extractor, LF or CRLF (all records of the file with the same terminator): a record
+   includes its whole line terminator, the last field excludes the CR *)
+Theorem C04_from_raw_delimited_repaired :
+  forall k f e recs,
+    delimited f -> (1 <= k)%nat -> recs <> [] -> (e = [LF] \/ e = [CR; LF]) -> Forall (rec_wf2 k e) recs ->
+    exists x, from_delimited_gen true (layout f recs) = Some x /\ Inv x /\ view x = map (gview f) recs /\ x_contig x = true.
+Proof. exact from_delimited_repaired_correct. Qed.
+Print Assumptions C04_from_raw_delimited_repaired.
+
+(* END TO END, repaired code, LF or CRLF delimited files, programs without replacement *)
+Theorem C04_delimited_repaired_end_to_end :
+  forall v f k e recs p out,
+    v_crlf v = true -> delimited f -> (1 <= k)%nat -> wide_enough f k -> recs <> [] ->
+    (e = [LF] \/ e = [CR; LF]) -> Forall (rec_wf2 k e) recs -> repl_free p = true ->
+    model_out_v v f (layout f recs) p = Some out -> spec_out_ok f recs p (Some out) = true.
+Proof. exact delimited_repaired_end_to_end. Qed.
+Print Assumptions C04_delimited_repaired_end_to_end.
+
+(* T1 for the OneLineBuffer family (FASTQ incl. '+name' lines, two-line FASTA), LF and CRLF *)
+Theorem C04_from_raw_oneline :
+  forall f cr recs, oneline f -> recs <> [] -> (cr = [] \/ cr = [CR]) -> Forall (ol_rec_wf f cr) recs ->
+    exists x, read pinned f (layout f recs) = Some (SLazy x []) /\ Inv x /\ view x = map (gview f) recs /\ x_contig x = true.
+Proof. exact from_oneline_grec. Qed.
+Print Assumptions C04_from_raw_oneline.
+
+(* END TO END for FASTQ / two-line FASTA: every selection program writes exactly the selected records' bytes *)
+Theorem C04_oneline_end_to_end :
+  forall v f cr recs p out,
+    oneline f -> recs <> [] -> (cr = [] \/ cr = [CR]) -> Forall (ol_rec_wf f cr) recs ->
+    cat_free p = true -> repl_free p = true ->
+    model_out_v v f (layout f recs) p = Some out -> spec_out_ok f recs p (Some out) = true.
+Proof. exact oneline_selection_end_to_end. Qed.
+Print Assumptions C04_oneline_end_to_end.
+
+(* THE SECOND SENTENCE OF THE PROPERTY, down to bytes: for BED/BED6/narrowPeak files (k columns = the k entry fields) and
+   VCFBuffer on 8-column files, EVERY program the library accepts — selections, concatenations, intermediate writes and
+   replacements of any fields — writes bytes satisfying the byte-level Spec: every record's non-replaced fields keep their
+   original text, only the replaced columns change (LF files: both code variants; CRLF files: repaired extractor) *)
+Theorem C04_delimited_program_end_to_end :
+  forall v f k e recs p out,
+    exact_fmt f (Z.of_nat k) -> (1 <= k)%nat -> recs <> [] ->
+    (e = [LF] \/ (e = [CR; LF] /\ v_crlf v = true)) -> Forall (rec_wf2 k e) recs ->
+    fields_ok (Z.of_nat k) p = true ->
+    model_out_v v f (layout f recs) p = Some out -> spec_out_ok f recs p (Some out) = true.
+Proof. exact delimited_program_end_to_end. Qed.
+Print Assumptions C04_delimited_program_end_to_end.
+
+(* the same with the hypotheses on the extractor explicit (usable with the per-file check hyp_ok) *)
+Theorem C04_exact_program_meets_spec :
+  forall v f nf recs x0 p out,
+    exact_fmt f nf -> read v f (layout f recs) = Some (SLazy x0 []) -> Inv x0 -> view x0 = map (gview f) recs ->
+    Forall (rec_exact nf) recs -> fields_ok nf p = true ->
+    model_out_v v f (layout f recs) p = Some out -> spec_out_ok f recs p (Some out) = true.
+Proof. exact exact_program_end_to_end. Qed.
+Print Assumptions C04_exact_program_meets_spec.
+
+(* SAMBuffer.join_fields (fix-2) as an ALGORITHM — join every column cell by cell, find the rows whose tag cell holds only
+   its separator (lengths[n-1::n] == 1), delete the byte at cell_ends[row * n + n - 2] — written with the helpers the
+   bridge ties to the source (m_sam_tag_empty, m_sam_cell_ends, m_sam_drop_cell), equals the model's abstract rendering
+   (no separator before an empty 'extra' field), for any number of rows of n >= 2 columns *)
+Theorem C04_sam_join_fields :
+  forall n rows, (2 <= n)%nat -> Forall (fun r : list (list Z) => List.length r = n) rows ->
+    sam_join_src n rows = List.concat (map (join_row repaired FSam) rows).
+Proof. exact sam_join_src_correct. Qed.
+Print Assumptions C04_sam_join_fields.
 
 (* SOURCE TIE — the formulas regenerated from /repo on this run (Gen/C04.v, written by translate/run.py +
    translate/gen_c04.py from io/file_buffers.py, io/bam.py, io/delimited_buffers.py, io/buffers/sam.py) are the ones the
@@ -239,4 +325,20 @@ Example C04_nonvacuous_wf : Forall (rec_wf 4) nv_recs /\ nv_recs <> [] /\ delimi
 Proof.
   split; [|split; [discriminate|split; exact I]].
   repeat constructor; unfold TAB, LF, CR; simpl; try lia; try discriminate.
+Qed.
+
+(* non-vacuity of the phase-3 hypotheses: concrete records meet them, and a replacing program on the CRLF BED witness
+   produces (repaired variant) bytes accepted by the Spec *)
+Definition w_fq := [ {| g_cols := [unhex "7231"; unhex "4143"; unhex "7231"; unhex "4923"]; g_eol := [13; 10] |} ].
+Example C04_nonvacuous_phase3 :
+  Forall sam_rec_wf w_sam /\ Forall (ol_rec_wf FFastq [13]) w_fq /\ Forall (rec_wf2 3 [13; 10]) w_bed
+  /\ exact_fmt (FDelim 3) 3 /\ fields_ok 3 (PRepl 2 [[55]; [56]] (PIdx [1; 0] PSrc)) = true
+  /\ spec_out_ok (FDelim 3) w_bed (PRepl 2 [[55]; [56]] (PIdx [1; 0] PSrc))
+       (model_out_v repaired (FDelim 3) (layout (FDelim 3) w_bed) (PRepl 2 [[55]; [56]] (PIdx [1; 0] PSrc))) = true.
+Proof.
+  split; [|split; [|split; [|split; [|split]]]]; try reflexivity.
+  - repeat constructor; unfold TAB, LF, CR; simpl; try lia; try discriminate.
+  - repeat constructor; unfold TAB, LF, CR; simpl; try lia; try discriminate.
+  - repeat constructor; unfold TAB, LF, CR; simpl; try lia; try discriminate.
+  - unfold exact_fmt. split; [left; reflexivity|lia].
 Qed.
